@@ -126,8 +126,11 @@ def gen_pattern(rng, pattern=None, force_dyadic=False, nmax=61):
     if force_dyadic:
         P = float(dyadic(P, 12)) or 2.0 ** -12
     t = t[rng.permutation(len(t))]
+    as_time = bool(rng.random() < 0.5)
+    # RVData(t_ref=False): "disable subtracting the reference time" - phases are then relative to BMJD 0
+    disabled = tref is None and bool(rng.random() < 0.15)
     return dict(pattern=pattern, t=[float(v) for v in t], P=float(P), unit=unit, n_bins=nb,
-                t_ref=None if tref is None else float(tref), as_time=bool(rng.random() < 0.5))
+                t_ref=0.0 if disabled else (None if tref is None else float(tref)), t_ref_disabled=disabled, as_time=as_time)
 
 
 # ------------------------------------------------------------------------------------------------
@@ -222,7 +225,9 @@ def build(case, t=None):
     err = (0.5 + 0.01 * np.arange(n)) * u.km / u.s
     tt = Time(t, format="mjd", scale="tcb") if case["as_time"] else t
     kw = {}
-    if case["t_ref"] is not None:
+    if case.get("t_ref_disabled"):
+        kw["t_ref"] = False
+    elif case["t_ref"] is not None:
         kw["t_ref"] = Time(case["t_ref"], format="mjd", scale="tcb")
     data = RVData(tt, rv=rv, rv_err=err, **kw)
     s = JokerSamples()
@@ -283,6 +288,8 @@ def check_pattern(ctx, g, case, tagx=""):
     inp = dict(case)
     ctx.count(f"pattern:{case['pattern']}")
     ctx.count(f"unit:{case['unit']}")
+    if case.get("t_ref_disabled"):
+        ctx.count("t_ref disabled (t_ref=False)")
     if case["t_ref"] is not None:
         ctx.count("explicit_t_ref")
         if any(q < 0 for q in [(t - ex["tref"]) for t in ex["ts"]]):
@@ -390,6 +397,7 @@ def phase_other_epoch(ctx, g, case, rng):
 
 def sym_case(ctx, g, rng):
     case = gen_pattern(rng, force_dyadic=True)
+    case["t_ref_disabled"] = False
     case["t_ref"] = None            # default epoch = earliest observation (changes under reversal: covered by the theorem)
     impl, ex = check_pattern(ctx, g, case, tagx="base")
     t = np.array(case["t"])
@@ -596,6 +604,7 @@ def post(ctx):
     ctx.require("gap cases whose largest arc is interior (>=20%)", c["gap:interior_arc_largest"], int(0.20 * ng))
     ctx.require("phase exactly on a bin edge", c["coverage:phase_exactly_on_edge"], 15)
     ctx.require("explicit reference epoch", c["explicit_t_ref"], 30)
+    ctx.require("data without a reference epoch (t_ref=False)", c["t_ref disabled (t_ref=False)"], 10)
     ctx.require("observations before the reference epoch (negative dt)", c["negative_dt"], 20)
     for u_ in ("day", "yr", "hour", "min"):
         ctx.require(f"period unit {u_}", c[f"unit:{u_}"], 15)
